@@ -5,8 +5,10 @@
 package main
 
 import (
+	"errors"
 	"fmt"
 	"math/rand"
+	"sort"
 
 	"github.com/pion/interceptor"
 	"github.com/pion/interceptor/pkg/flexfec"
@@ -70,6 +72,12 @@ type icptCase struct {
 	Reuse     int        `json:"reuse,omitempty"` // what the caller does with its header / payload memory (see caller)
 	Kinds     []int      `json:"kinds,omitempty"`
 	Outs      [][][]byte `json:"outs,omitempty"`
+	// failing next writer (sets c14wfail*): per Write, the calls of the next writer (counted from 0 within that
+	// Write: 0 = the media packet, 1.. = the repair packets) that return an error.  With a schedule, Outs holds
+	// every call MADE to the next writer (failed ones included) and RetErr / RetIs what the Write returned.
+	Fail   [][]int `json:"fail,omitempty"`
+	RetErr []int   `json:"ret_err,omitempty"` // per Write: 1 iff the returned error is non-nil
+	RetIs  [][]int `json:"ret_is,omitempty"`  // per Write: the failed calls whose error errors.Is finds in the returned error
 }
 
 // wireOf is the byte string a (header, payload) pair has on the wire: pion/rtp's Marshal, and for the
@@ -233,7 +241,13 @@ func (c encCase) toCase(buckets ...string) cq.Case {
 	}
 }
 
-type recWriter struct{ got [][]byte }
+// recWriter is the next writer of the chain: it records every packet it is handed (also when it then
+// fails) and returns the scheduled error for the calls named in fail.
+type recWriter struct {
+	got   [][]byte
+	calls int           // calls since the current Write of the interceptor started
+	fail  map[int]error // call -> the (distinct) error it returns
+}
 
 func (w *recWriter) Write(h *rtp.Header, payload []byte, _ interceptor.Attributes) (int, error) {
 	hc := h.Clone()
@@ -242,6 +256,11 @@ func (w *recWriter) Write(h *rtp.Header, payload []byte, _ interceptor.Attribute
 		panic(fmt.Sprintf("harness: packet reaching the writer does not marshal: %v", err))
 	}
 	w.got = append(w.got, m)
+	j := w.calls
+	w.calls++
+	if e := w.fail[j]; e != nil {
+		return 0, e
+	}
 
 	return len(m), nil
 }
@@ -348,20 +367,28 @@ func runIcpt(c icptCase) icptCase {
 	wr := ic.BindLocalStream(&interceptor.StreamInfo{
 		SSRC: c.MediaSSRC, PayloadTypeForwardErrorCorrection: c.PT, SSRCForwardErrorCorrection: c.FecSSRC,
 	}, w)
-	c.Kinds, c.Outs = nil, nil
+	c.Kinds, c.Outs, c.RetErr, c.RetIs = nil, nil, nil, nil
 	fl := flagsOf(c.Flags, len(c.Writes))
 	cl := newCaller(c.Reuse)
 	for i, b := range c.Writes {
 		hdr, payload := cl.next(b, fl[i])
-		w.got = nil
+		w.got, w.calls, w.fail = nil, 0, nil
+		if c.Fail != nil {
+			w.fail = map[int]error{}
+			for _, j := range c.Fail[i] {
+				w.fail[j] = fmt.Errorf("next writer: call %d of write %d fails", j, i) //nolint:err113
+			}
+		}
+		var ret error
 		kind := func() (k int) {
 			defer func() {
 				if r := recover(); r != nil {
 					k = 2
 				}
 			}()
-			if _, err := wr.Write(hdr, payload, nil); err != nil {
-				panic(err)
+			_, ret = wr.Write(hdr, payload, nil)
+			if ret != nil && c.Fail == nil {
+				panic(ret) // the next writer never fails in these cases
 			}
 
 			return 1
@@ -369,6 +396,21 @@ func runIcpt(c icptCase) icptCase {
 		cl.after()
 		c.Kinds = append(c.Kinds, kind)
 		c.Outs = append(c.Outs, w.got)
+		if c.Fail != nil {
+			is := []int{}
+			for j, e := range w.fail {
+				if kind == 1 && errors.Is(ret, e) {
+					is = append(is, j)
+				}
+			}
+			sort.Ints(is)
+			c.RetIs = append(c.RetIs, is)
+			if kind == 1 && ret != nil {
+				c.RetErr = append(c.RetErr, 1)
+			} else {
+				c.RetErr = append(c.RetErr, 0)
+			}
+		}
 		if kind == 2 {
 			break
 		}
@@ -379,7 +421,7 @@ func runIcpt(c icptCase) icptCase {
 
 func be32(x uint32) []byte { return []byte{byte(x >> 24), byte(x >> 16), byte(x >> 8), byte(x)} }
 
-func (c icptCase) toCase(buckets ...string) cq.Case {
+func (c icptCase) coq() (string, bool) {
 	outs := make([]string, len(c.Kinds))
 	triv := true
 	for i := range c.Kinds {
@@ -389,11 +431,55 @@ func (c icptCase) toCase(buckets ...string) cq.Case {
 		outs[i] = cq.T(cq.Z(int64(c.Kinds[i])), bytesList(c.Outs[i]))
 	}
 
-	return cq.Case{
-		Coq: cq.T(cq.T(cq.ZU(uint64(c.NM)), cq.ZU(uint64(c.NF)), cq.ZU(uint64(c.PT)), cq.ZU(uint64(c.FecSSRC)),
-			cq.Bytes(be32(c.MediaSSRC))), bytesList(c.Writes), intList(flagsOf(c.Flags, len(c.Writes))), cq.L(outs)),
-		JSON: c, Buckets: buckets, Trivial: triv,
+	return cq.T(cq.T(cq.ZU(uint64(c.NM)), cq.ZU(uint64(c.NF)), cq.ZU(uint64(c.PT)), cq.ZU(uint64(c.FecSSRC)),
+		cq.Bytes(be32(c.MediaSSRC))), bytesList(c.Writes), intList(flagsOf(c.Flags, len(c.Writes))), cq.L(outs)), triv
+}
+
+func (c icptCase) toCase(buckets ...string) cq.Case {
+	t, triv := c.coq()
+
+	return cq.Case{Coq: t, JSON: c, Buckets: buckets, Trivial: triv}
+}
+
+// toFailCase: the interceptor case, the failure schedule of the next writer, what each Write returned.
+// Non-trivial = a repair packet was handed on and a call that was made failed.
+func (c icptCase) toFailCase(buckets ...string) cq.Case {
+	t, triv := c.coq()
+	fails := make([]string, len(c.Writes))
+	for i := range c.Writes {
+		fails[i] = intList(c.Fail[i])
 	}
+	rets := make([]string, len(c.Kinds))
+	failed := false
+	for i := range c.Kinds {
+		rets[i] = cq.T(cq.Z(int64(c.RetErr[i])), intList(c.RetIs[i]))
+		for _, j := range c.Fail[i] {
+			if j < len(c.Outs[i]) {
+				failed = true
+				if j == 0 && len(c.Outs[i]) > 1 {
+					buckets = append(buckets, "media-write-fails-on-batch-completing-packet")
+				}
+				if j > 0 {
+					buckets = append(buckets, "repair-write-fails")
+				}
+			}
+		}
+	}
+
+	return cq.Case{Coq: cq.T(t, cq.L(fails), cq.L(rets)), JSON: c, Buckets: dedup(buckets), Trivial: triv || !failed}
+}
+
+func dedup(xs []string) []string {
+	seen := map[string]bool{}
+	out := xs[:0:0]
+	for _, x := range xs {
+		if !seen[x] {
+			seen[x] = true
+			out = append(out, x)
+		}
+	}
+
+	return out
 }
 
 // ---- generation ----
@@ -753,6 +839,64 @@ func genIcpt(r *rand.Rand, boundary bool) (icptCase, []string) {
 	return c, keys(b)
 }
 
+// genIcptFail: an interceptor history (as genIcpt, small batches) over a next writer that fails: per Write a
+// set of calls (0 = the media packet, 1.. = the repair packets) that return an error.
+func genIcptFail(r *rand.Rand) (icptCase, []string) {
+	c, bk := genIcpt(r, false)
+	if r.Intn(3) != 0 && c.NM > 5 { // mostly short batches: many batch ends per history
+		c2 := c
+		for c2.NM > 5 || c2.NM == 0 {
+			c2, bk = genIcpt(r, false)
+		}
+		c = c2
+	}
+	b := map[string]bool{}
+	for _, k := range bk {
+		b[k] = true
+	}
+	maxCalls := int(c.NF) + 1
+	if maxCalls > int(c.NM)+1 {
+		maxCalls = int(c.NM) + 1
+	}
+	if maxCalls > 7 {
+		maxCalls = 7
+	}
+	dead := -1 // from this Write on every call fails (closed transport)
+	if r.Intn(8) == 0 {
+		dead = r.Intn(len(c.Writes) + 1)
+		b["next-writer-dead-from-some-write"] = true
+	}
+	c.Fail = make([][]int, len(c.Writes))
+	for i := range c.Writes {
+		f := []int{}
+		switch x := r.Intn(10); {
+		case dead >= 0 && i >= dead:
+			for j := 0; j < maxCalls; j++ {
+				f = append(f, j)
+			}
+		case x < 3: // the media packet's write
+			f = append(f, 0)
+			b["media-write-scheduled-to-fail"] = true
+		case x == 3 && maxCalls > 1: // one repair packet's write
+			f = append(f, 1+r.Intn(maxCalls-1))
+		case x == 4: // any subset
+			for j := 0; j < maxCalls; j++ {
+				if r.Intn(2) == 0 {
+					f = append(f, j)
+				}
+			}
+			b["several-writes-scheduled-to-fail"] = true
+		case x == 5 && maxCalls > 1: // every repair packet's write
+			for j := 1; j < maxCalls; j++ {
+				f = append(f, j)
+			}
+		}
+		c.Fail[i] = f
+	}
+
+	return c, keys(b)
+}
+
 func main() {
 	o := cq.ParseFlags()
 	r := o.Rand()
@@ -769,10 +913,18 @@ func main() {
 	encs := []*cq.Set{enc, mk("c14enc2", "enc_case", "enc"), mk("c14enc3", "enc_case", "enc"), mk("c14enc4", "enc_case", "enc")}
 	icpt, icptBnd := mk("c14icpt", "icpt_case", "icpt"), mk("c14icptbnd", "icpt_case", "icpt")
 	icpts := []*cq.Set{icpt, mk("c14icpt2", "icpt_case", "icpt")}
-	all := append(append([]*cq.Set{}, encs...), encBig, encBnd, icpts[0], icpts[1], icptBnd)
+	wfail := mk("c14wfail", "icptf_case", "icptf")
+	all := append(append([]*cq.Set{}, encs...), encBig, encBnd, icpts[0], icpts[1], icptBnd, wfail)
 	load := func(file, bucket string) {
 		var probe map[string]interface{}
-		if set := cq.LoadReplay(file, &probe); len(set) >= 7 && set[:7] == "c14icpt" {
+		if set := cq.LoadReplay(file, &probe); len(set) >= 8 && set[:8] == "c14wfail" {
+			var c icptCase
+			cq.LoadReplay(file, &c)
+			if len(c.Fail) < len(c.Writes) { // a schedule shorter than the history: the remaining Writes do not fail
+				c.Fail = append(c.Fail, make([][]int, len(c.Writes)-len(c.Fail))...)
+			}
+			wfail.Cases = append(wfail.Cases, runIcpt(c).toFailCase(bucket))
+		} else if len(set) >= 7 && set[:7] == "c14icpt" {
 			var c icptCase
 			cq.LoadReplay(file, &c)
 			icpt.Cases = append(icpt.Cases, runIcpt(c).toCase(bucket))
@@ -816,12 +968,20 @@ func main() {
 		c, b := genIcpt(r, true)
 		icptBnd.Cases = append(icptBnd.Cases, runIcpt(c).toCase(b...))
 	}
+	nw := o.Scale(70, 900)
+	for i := 0; i < nw; i++ {
+		c, b := genIcptFail(r)
+		wfail.Cases = append(wfail.Cases, runIcpt(c).toFailCase(b...))
+	}
 	cq.Write(o, "enc: histories of 1..5 EncodeFec calls through one encoder (batches of 1..30 packets, boundary batches of "+
 		"15/16/45/46/47/63/64/65/108/109/110/111; n in {0,1,k-1,k,k+1,110,>110,1..6}; CSRC, one-/two-byte extensions, padding 1..255 (PaddingSize, inside the payload with P bit, deprecated field, PaddingSize without P bit), "+
 		"marker, any PT, version != 2; payload 0..48, separate histories with 1200/1500; base SN incl. wrap inside the batch; same shape again / shape change; "+
 		"gaps, swaps, empty batches); non-trivial = at least one repair packet emitted; "+
 		"icpt: real FecInterceptor bound to one stream, 1..4 batches of numMedia in {0,1,2,3,5,8,10,16,46,47,109,110} plus packets of "+
 		"other SSRCs and sequence gaps; in half of the cases the caller keeps ONE rtp.Packet + read buffer (Unmarshal for every packet) or ONE rtp.Header "+
-		"updated in place (same CSRC / Extensions arrays, SetExtension on present ids, one payload buffer) and overwrites all of it when Write has returned; non-trivial = at least one repair packet reached the writer",
+		"updated in place (same CSRC / Extensions arrays, SetExtension on present ids, one payload buffer) and overwrites all of it when Write has returned; non-trivial = at least one repair packet reached the writer; "+
+		"wfail: the same interceptor histories (mostly numMedia <= 5) over a NEXT WRITER THAT FAILS: per Write a set of its calls (0 = the media packet, 1.. = the repair packets) returns a distinct error "+
+		"(media packet only / one repair packet / any subset / all repair packets / everything from some Write on); observed: every call made to the next writer incl. failed ones, err != nil, which errors errors.Is finds in it; "+
+		"non-trivial = a repair packet was handed on and a call that was made failed",
 		all, nil, nil)
 }
